@@ -325,7 +325,84 @@ func gapInputs(src []byte, off, step int) [][]byte {
 
 var importPathRe = regexp.MustCompile(`"[A-Za-z0-9_./-]+"`)
 
+// qualified identifiers at every kind of position an expression can stand in (with the import-resolving
+// entry points they become path-carrying identifiers, which the import-managing restorer must accept
+// wherever the decorator makes them)
+const c15Qualified = `package p
+
+import (
+	"example.com/cfg"
+	"example.com/q"
+)
+
+func f(xs []int, ch chan int) {
+	for cfg.Index = range xs {
+	}
+	for _, cfg.Current = range xs {
+	}
+	for cfg.Index, cfg.Current = range cfg.List {
+	}
+	cfg.Count++
+	cfg.Count += q.Step
+	ch <- cfg.Count
+	cfg.Table[q.Key] = cfg.Values[q.Lo:q.Hi:q.Max]
+	switch cfg.Mode {
+	case q.A, q.B:
+	}
+	switch v := cfg.Any.(type) {
+	case q.T, *q.U:
+		_ = v
+	}
+	switch cfg.Any.(type) {
+	}
+	select {
+	case cfg.Ch <- q.Step:
+	case cfg.Count = <-cfg.Ch:
+	case v, ok := <-q.Ch:
+		_, _ = v, ok
+	}
+	go cfg.Run(q.Step)
+	defer cfg.Stop()
+	_ = q.T{F: cfg.Count}
+	_ = map[q.K]cfg.V{q.Key: cfg.Val}
+	_ = [...]cfg.V{q.Idx: cfg.Val}
+	_ = &cfg.Val
+	_ = *cfg.Ptr
+	_ = -cfg.Count
+	_ = cfg.Fn(q.Args...)
+	_ = cfg.Gen[q.T]
+	_ = cfg.Gen2[q.T, cfg.V]
+	_ = cfg.Any.(q.T)
+	_ = func(a cfg.V, b ...q.T) (r q.U) { return }
+	var _ cfg.Iface = (*q.T)(nil)
+	var _ chan<- cfg.V
+	var _ [q.N]cfg.V
+	var _ struct {
+		cfg.Embedded
+		F q.T ` + "`tag`" + `
+	}
+	var _ interface {
+		cfg.Iface
+		M(q.T) cfg.V
+	}
+	if cfg.Ok && !q.Ok {
+	} else if v := cfg.Val; v != q.Zero {
+	}
+L:
+	for cfg.I = 0; cfg.I < q.N; cfg.I++ {
+		continue L
+	}
+	cfg.A, q.B = q.B, cfg.A
+	return
+}
+
+type t[P cfg.Constraint] struct{ p P }
+
+func (r t[P]) m(x cfg.V) q.T { return q.Conv(x) }
+`
+
 var c15Fixed = [][]byte{
+	[]byte(c15Qualified),
 	[]byte("package p\nimport 'a'\nvar x = a.B\n"), []byte("package p\nimport \"a\nvar x = a.B\n"), []byte("package p\nimport a.b\nvar x = a.B\n"),
 	[]byte("package p\nimport \"\\xZ\"\nvar x = a.B\n"), []byte("package p\nimport 1\nvar x = a.B\n"), []byte("package p\n\nimport (\n\t\"fmt\"\n\tx 'y'\n)\n\nvar _ = fmt.Sprint(x.V)\n"),
 	[]byte(""), []byte("\n"), []byte(" \t\n\n"), []byte("// c\n"), []byte("/* c */"), []byte("func f(){}"), []byte("package"), []byte("package p"),
